@@ -4,6 +4,8 @@
    calls) is threaded through as a list of keys; a key is only ever added when it is absent, so
    the list is the map.  Go recurses without bound: fuel, and `Hang` when it is exhausted
    (proofs/EqualTerm.v: the fuel `eq_fuel` always suffices for well-formed environments).
+   The function the typechecker model calls is TcDeps.eq_ty (lead's file); this file presents the
+   same function through the combinators the proofs are organised around.
    No proofs here. *)
 Require Import Grits.Base Grits.ModeDefs Grits.Modes Grits.STypes Grits.Infer Grits.Print.
 
@@ -70,78 +72,61 @@ Definition expand_both (rec : sty -> sty -> list string -> res) (D : tenv) (s t 
     end
   end.
 
-Fixpoint eq_ty (fuel : nat) (D : tenv) (s t : sty) (M : list string) : res :=
-  match fuel with
-  | O => Hang "innerEqualType"
-  | S f =>
-    (* if a != b && !isLabel1 && !isLabel2 { return false } *)
-    if negb (same_ctor s t) && negb (is_name s) && negb (is_name t) then Ok (false, M)
-    else if is_name s || is_name t then
-      let key := memo_key s t in
-      if str_mem key M then Ok (true, M)
-      else if same_label s t then Ok (mode_eqb (mode_of s) (mode_of t), M)
-      else expand_both (eq_ty f D) D s t key M
-    else
-      match s, t with
-      | TUnit m, TUnit m' => Ok (mode_eqb m m', M)
-      | TTensor a b m, TTensor a' b' m' =>
-        if mode_eqb m m' then both (eq_ty f D) a a' b b' M else Ok (false, M)
-      | TLolli a b m, TLolli a' b' m' =>
-        if mode_eqb m m' then both (eq_ty f D) a a' b b' M else Ok (false, M)
-      | TPlus bs m, TPlus cs m' =>
-        if (brs_len bs =? brs_len cs)%nat
-        then (if mode_eqb m m' then branches (eq_ty f D) bs cs M else Ok (false, M))
-        else Ok (false, M)
-      | TWith bs m, TWith cs m' =>
-        if (brs_len bs =? brs_len cs)%nat
-        then (if mode_eqb m m' then branches (eq_ty f D) bs cs M else Ok (false, M))
-        else Ok (false, M)
-      | TUp f1 t1 a, TUp f2 t2 a' =>
-        if mode_eqb t1 t2 then (if mode_eqb f1 f2 then eq_ty f D a a' M else Ok (false, M)) else Ok (false, M)
-      | TDown f1 t1 a, TDown f2 t2 a' =>
-        if mode_eqb t1 t2 then (if mode_eqb f1 f2 then eq_ty f D a a' M else Ok (false, M)) else Ok (false, M)
-      | _, _ => Ok (false, M)
-      end
+(* ONE call of innerEqualType: `rs` stands for the recursive calls on components, `re` for the
+   recursive call after expanding labels *)
+Definition step (rs re : sty -> sty -> list string -> res) (D : tenv) (s t : sty) (M : list string) : res :=
+  (* if a != b && !isLabel1 && !isLabel2 { return false } *)
+  if negb (same_ctor s t) && negb (is_name s) && negb (is_name t) then Ok (false, M)
+  else if is_name s || is_name t then
+    let key := memo_key s t in
+    if str_mem key M then Ok (true, M)
+    else if same_label s t then Ok (mode_eqb (mode_of s) (mode_of t), M)
+    else expand_both re D s t key M
+  else
+    match s, t with
+    | TUnit m, TUnit m' => Ok (mode_eqb m m', M)
+    | TTensor a b m, TTensor a' b' m' =>
+      if mode_eqb m m' then both rs a a' b b' M else Ok (false, M)
+    | TLolli a b m, TLolli a' b' m' =>
+      if mode_eqb m m' then both rs a a' b b' M else Ok (false, M)
+    | TPlus bs m, TPlus cs m' =>
+      if (brs_len bs =? brs_len cs)%nat
+      then (if mode_eqb m m' then branches rs bs cs M else Ok (false, M))
+      else Ok (false, M)
+    | TWith bs m, TWith cs m' =>
+      if (brs_len bs =? brs_len cs)%nat
+      then (if mode_eqb m m' then branches rs bs cs M else Ok (false, M))
+      else Ok (false, M)
+    | TUp f1 t1 a, TUp f2 t2 a' =>
+      if mode_eqb t1 t2 then (if mode_eqb f1 f2 then rs a a' M else Ok (false, M)) else Ok (false, M)
+    | TDown f1 t1 a, TDown f2 t2 a' =>
+      if mode_eqb t1 t2 then (if mode_eqb f1 f2 then rs a a' M else Ok (false, M)) else Ok (false, M)
+    | _, _ => Ok (false, M)
+    end.
+
+(* innerEqualType with the two-level fuel of TcDeps.eq_ty (the function Tc.v calls):
+   k bounds the number of label expansions along one recursion path, n the structural descent
+   between two expansions (reset to the size of the expanded pair).  proofs/EqualBridge.v proves
+   TcDeps.eq_ty k D n s t M = eq_ty k D n s t M; all theorems are proved for this presentation
+   and transported.  Out of fuel = Hang (Go: unbounded recursion). *)
+Fixpoint eq_in (re : sty -> sty -> list string -> res) (D : tenv) (n : nat) (s t : sty) (M : list string) : res :=
+  match n with
+  | O => Hang "EqualType"
+  | S n' => step (eq_in re D n') re D s t M
+  end.
+Fixpoint eq_ty (k : nat) (D : tenv) (n : nat) (s t : sty) (M : list string) : res :=
+  match k with
+  | O => Hang "EqualType"
+  | S k' => eq_in (fun s' t' M' => eq_ty k' D (S (tsize s' + tsize t')) s' t' M') D n s t M
   end.
 
-(* ---------- fuel ---------- *)
-Fixpoint subterms (t : sty) : list sty :=
-  t :: match t with
-       | TName _ _ | TUnit _ => []
-       | TTensor a b _ | TLolli a b _ => subterms a ++ subterms b
-       | TPlus bs _ | TWith bs _ => subterms_brs bs
-       | TUp _ _ a | TDown _ _ a => subterms a
-       end
-with subterms_brs (b : brs) : list sty :=
-  match b with BNil => [] | BCons _ a r => subterms a ++ subterms_brs r end.
-
-(* every type the algorithm can meet when started on types of `roots`: their sub-terms and the
-   sub-terms of the bodies of the definitions *)
-Definition universe (D : tenv) (roots : list sty) : list sty :=
-  flat_map subterms roots ++ flat_map (fun d => subterms (td_body d)) D.
-
-Definition max_size (l : list sty) : nat := fold_right (fun t acc => Nat.max (tsize t) acc) 0 l.
-
-(* (number of pairs) * (2 * max size + 1) + 2 * max size + 1: each expansion adds a new pair to the
-   memo, between two expansions the sizes shrink (proofs/EqualTerm.v) *)
-Definition fuel_of (U : list sty) : nat :=
-  let n := length U in
-  let k := 2 * max_size U + 1 in
-  k + (n * n) * k.
-
-Definition eq_fuel (D : tenv) (s t : sty) : nat := fuel_of (universe D [s; t]).
+(* fuel: number of expansions <= (N+1)^2 with N the number of sub-term occurrences in play *)
+Definition eq_fuel (D : tenv) (s t : sty) : nat :=
+  let n := S (env_size D + tsize s + tsize t) in S (n * n).
 
 (* EqualType *)
 Definition equal_type (D : tenv) (s t : sty) : outcome bool :=
-  match eq_ty (eq_fuel D s t) D s t [] with
-  | Ok (b, _) => Ok b
-  | Panic w => Panic w
-  | Hang w => Hang w
-  end.
-
-(* the same with one fuel for a whole pool of types (the driver shares it between all pairs) *)
-Definition equal_type_in (fuel : nat) (D : tenv) (s t : sty) : outcome bool :=
-  match eq_ty fuel D s t [] with
+  match eq_ty (eq_fuel D s t) D (S (tsize s + tsize t)) s t [] with
   | Ok (b, _) => Ok b
   | Panic w => Panic w
   | Hang w => Hang w
